@@ -256,6 +256,7 @@ func main() {
 	srand.Reader = saved
 	secretLengths(r)
 	wrappedMessages(r)
+	spareCapacity(r)
 	histories(r)
 	garbage(r, a)
 	randFaults(r, a)
